@@ -269,8 +269,24 @@ func opCase(op *pendingOp, idx int) (ch *ChanVal, send bool, val Value) {
 	return c.ch, c.send, c.val
 }
 
+// SchedStep is one fired transition in replayable form: the threads involved and,
+// for each, the select case it takes (-1: plain operation, -2: select default).
+type SchedStep struct {
+	T []int `json:"t"`
+	C []int `json:"c"`
+}
+
 func (ex *Exec) fire(tr transition) {
 	ex.schedTrace = append(ex.schedTrace, tr.desc)
+	st := SchedStep{T: []int{tr.t.id}, C: []int{tr.caseIdx}}
+	if tr.kind == 2 {
+		st.C[0] = -2
+	}
+	if tr.t2 != nil {
+		st.T = append(st.T, tr.t2.id)
+		st.C = append(st.C, tr.case2)
+	}
+	ex.schedSteps = append(ex.schedSteps, st)
 	switch tr.kind {
 	case 2:
 		tr.t.pending.selIdx = -1
